@@ -156,6 +156,20 @@ func (w *cfgWriter) body(b m.BodyM, level int, selfOK bool) {
 				w.attrLineRaw(level, it.name, Pick(g, []string{`"ab é x`, `"é`, `"pre é ü`, `"x é" é`, `"${var.a} é`}))
 				continue
 			}
+			if names := objectAttrNames(b.Attrs[it.name].Cons); w.o.HalfTyped > 0 && len(names) > 0 && g.Chance(20) {
+				// object completion works on the raw text around the cursor: a partially typed
+				// attribute name, with a comment / other items / multi-byte text to its right
+				n := Pick(g, names)
+				k := n[:TrimLen(n, g.Int(1, len(n)))]
+				w.attrLineRaw(level, it.name, Pick(g, []string{
+					"{\n" + w.ind(level+1) + k + " # c\n" + w.ind(level) + "}",
+					"{\n" + w.ind(level+1) + k + " // é x\n" + w.ind(level) + "}",
+					"{ " + k + " /* c */ }",
+					"{\n" + w.ind(level+1) + k + "\n" + w.ind(level) + "}",
+					"{ " + k + " é = 1 }",
+				}))
+				continue
+			}
 			w.attrLine(level, it.name, g.exprFor(b.Attrs[it.name].Cons, env, 2))
 		case "any":
 			w.attrLine(level, it.name, g.exprFor(b.AnyAttr.Cons, env, 2))
@@ -177,9 +191,36 @@ func (w *cfgWriter) body(b m.BodyM, level int, selfOK bool) {
 	}
 }
 
-var halfTyped = []string{"", "", "", "provider::aws::f", "provider::aws::", "ns::", "var.", "var.a.", "f(", "fn(var.a, ", "[", "[var.a, ", "{", "{ a = ", "{ a = 1, ",
+var halfTyped = []string{"", "", "", "provider::aws::f", "provider::aws::", "ns::", "ns::fé", "ns::f", "var.", "var.a.", "f(", "fn(var.a, ", "[", "[var.a, ", "{", "{ a = ", "{ a = 1, ",
 	"\"${", "\"${var.", "\"abc", "true ? ", "true ? 1 : ", "1 + ", "!", "[for ", "[for x in ", "[for x in var.a : ", "var.a[", "var.a[\"", "self.", "count.", "each.", "<<EOT\n  x\n",
-	"lis", "t", "f", "nu", "obj", "list(", "object({", "(", "-"}
+	"lis", "t", "f", "nu", "obj", "list(", "object({", "(", "-",
+	// a partially typed object attribute name followed by a comment on the same line
+	"{\n    a # c\n  }", "{\n    ab // é x\n  }", "{ a /* c */ }", "{\n    k # é\n    a = 1\n  }", "{\n    n- # c\n  }"}
+
+// objectAttrNames lists the attribute names of an object-shaped constraint.
+func objectAttrNames(c m.ConsM) []string {
+	var out []string
+	switch c.K {
+	case "object":
+		out = sortedKeys(c.Attrs)
+	case "any", "littype":
+		if t := c.Ty.Cty(); t.IsObjectType() {
+			for n := range t.AttributeTypes() {
+				out = append(out, n)
+			}
+			sort.Strings(out)
+		}
+	}
+	return out
+}
+
+// TrimLen returns the largest length <= n at which s can be cut on a character boundary.
+func TrimLen(s string, n int) int {
+	for n > 0 && n < len(s) && s[n]&0xC0 == 0x80 {
+		n--
+	}
+	return n
+}
 
 func (w *cfgWriter) attrLineRaw(level int, name, expr string) {
 	w.sb.WriteString(w.ind(level) + name + " = " + expr + w.nl)
@@ -502,8 +543,9 @@ func (g G) exprOfType(t cty.Type, env exprEnv, depth int) string {
 			return "-" + par(g.exprOfType(cty.Number, env, depth-1))
 		}
 		return g.refText(env)
-	case 7: // parentheses
-		return "(" + g.exprOfType(t, env, depth-1) + ")"
+	case 7: // parentheses, sometimes with blanks or a line break inside
+		pad := Pick(g, []string{"", "", "", " ", "  ", "\n    "})
+		return "(" + pad + g.exprOfType(t, env, depth-1) + Pick(g, []string{"", "", " ", pad}) + ")"
 	case 8: // for expression
 		src := g.exprOfType(cty.List(cty.String), env, depth-1)
 		switch {
